@@ -89,6 +89,11 @@ func main() {
 		var cs caseSpec
 		r.LoadReplay(&cs)
 		protect(r, func() { bindVectors(r) })
+		if cs.Kind == "race" {
+			racePass(r)
+			r.Finish(false)
+			return
+		}
 		protect(r, func() { replay(r, cs, sink, x(0)) })
 		report(r, sink, cs.Key)
 		r.Finish(false)
@@ -344,8 +349,8 @@ func racePass(r *ev.Run) {
 	}
 	r.Assume("the -race pass (concurrent sender+receiver goroutines on both endpoints) is a free-running sample of interleavings, not an exhaustive exploration")
 	r.Set("race_pass", map[string]interface{}{
-		"what": "2 real v2transport.Peer endpoints over a bounded in-memory duplex pipe, built with -race; after the handshake each endpoint runs one V2EncPacket goroutine and one V2ReceivePacket goroutine simultaneously; order, contents and ignore flags verified",
-		"configs": "garbage/decoys (0,0,-,-) 240 packets/direction with sizes cycling {0,1,2,3,255,256,65535}; (5,17,[0],[1 100]) 240; (4095,4094,[100 0],-) 240; (16,4095,-,[0]) 460 packets with 65535 replaced by 4096; the two directions use different sizes at the same index; every session crosses the rekey at 224 (the last one also 448)",
+		"what":        "2 real v2transport.Peer endpoints over a bounded in-memory duplex pipe, built with -race; after the handshake each endpoint runs one V2EncPacket goroutine and one V2ReceivePacket goroutine simultaneously; order, contents and ignore flags verified",
+		"configs":     "garbage/decoys (0,0,-,-) 240 packets/direction with sizes cycling {0,1,2,3,255,256,65535}; (5,17,[0],[1 100]) 240; (4095,4094,[100 0],-) 240; (16,4095,-,[0]) 460 packets with 65535 replaced by 4096; the two directions use different sizes at the same index; every session crosses the rekey at 224 (the last one also 448)",
 		"repetitions": reps,
 		"output_tail": tailStr(out),
 	})
